@@ -9,20 +9,31 @@
 (* geometry of a resource node: parent buckets of 500 ms, read through the *)
 (* 2 x 500 ms = 1 s view.  Kinds recorded: pass (admitted inbound tokens), *)
 (* complete (completed inbound tokens), rt (response time of a completed   *)
-(* inbound entry, ms).                                                     *)
+(* inbound entry, ms), error (tokens of inbound entries that completed     *)
+(* WITH an error: Exit(WithError(err)), or TraceError / SetError before    *)
+(* the Exit).                                                              *)
+(*                                                                         *)
+(* An entry completes exactly once, however it completes: a completion     *)
+(* that carries an error is a completion like any other for everything the *)
+(* gate reads (completion count, RT sum, minimum RT, peak completion rate, *)
+(* in-flight gauge) - the error flag only feeds the `error` kind, which no *)
+(* system rule reads (OnCompleteE).                                        *)
 (*                                                                         *)
 (* Fractions (triggers, load, cpu) are rationals [num, den], den > 0;      *)
 (* comparisons are cross-multiplied.  "not sampled" load / cpu is -1/1.    *)
 (***************************************************************************)
 EXTENDS WindowRef
 
-GKinds == {"pass", "complete", "rt"}
+GKinds == {"pass", "complete", "rt", "error"}
 GPBL   == 500      \* parent bucket length (ms)
 GVI    == 1000     \* view interval (ms) = 1 s, so a sum over the view is a per-second rate
 
 \* total inbound admitted QPS
 Qps(ref, t)       == RefSum(ref, GPBL, t, GVI, "pass")
 Completes(ref, t) == RefSum(ref, GPBL, t, GVI, "complete")
+\* inbound tokens that completed with an error (a subset of the completions; read by no system rule)
+Errors(ref, t)    == RefSum(ref, GPBL, t, GVI, "error")
+RtSum(ref, t)     == RefSum(ref, GPBL, t, GVI, "rt")
 \* inbound average response time: integer division, 0 without completions
 AvgRt(ref, t)     == IF Completes(ref, t) > 0 THEN RefSum(ref, GPBL, t, GVI, "rt") \div Completes(ref, t) ELSE 0
 \* minimum response time, never below 1 ms (MaxRt = 60000 when nothing completed)
@@ -74,5 +85,9 @@ MustBlock(ty, rules, ref, t, conc, load, cpu) == MustBlockQ(ty, rules, Readings(
 \* bookkeeping of the inbound aggregate
 OnPass(ref, t, b)         == RefAdd(ref, GKinds, GPBL, t, "pass", b)
 OnComplete(ref, t, rt, b) == RefAdd(RefAdd(ref, GKinds, GPBL, t, "rt", rt), GKinds, GPBL, t, "complete", b)
+\* one completion of an inbound entry of b tokens after rt ms, with or without an error: the RT, the completion
+\* count (hence min RT and the per-bucket peak) are recorded in BOTH cases; err adds the tokens to the error kind
+OnCompleteE(ref, t, rt, b, err) ==
+    LET r == OnComplete(ref, t, rt, b) IN IF err THEN RefAdd(r, GKinds, GPBL, t, "error", b) ELSE r
 GPrune(ref, t)            == Prune(ref, GPBL, GVI, t)
 =============================================================================
